@@ -230,7 +230,8 @@ class Scenario:
         m.update(meta or {})
         m["block"] = self.block.decode()
         m["events"] = len(self.events)
-        return Case("proxytb" if self.is_tb() else "proxy", cid, self.toks(), m)
+        # "proxysp": a case in which the proxy sends a request to one of its own sockets (played with repeated barriers)
+        return Case("proxysp" if getattr(self, "spiral", False) else "proxytb" if self.is_tb() else "proxy", cid, self.toks(), m)
 
 
 # ----------------------------------------------------------------------------- observations
